@@ -229,7 +229,8 @@ def kf (l : Line) : String :=
   -- (the class of KF-C01-boolarr — a decoded typedef.Bool array holding a byte other than 0 / 1 / 255 — is gone: fixed in /repo 5da5106)
   let ids := (if kept.any (kfZero l.o.fac) then ["KF-C01-zero"] else []) ++
     (if kept.any (kfArr l.o.fac) then ["KF-C01-arr"] else []) ++
-    (if kept.any (kfFFFD l.o.fac) then ["KF-C01-fffd"] else [])
+    (if kept.any (kfFFFD l.o.fac) then ["KF-C01-fffd"] else []) ++
+    (if kept.any (kfEmpty l.o.fac) then ["KF-C01-emptystr"] else [])
   if ids.isEmpty then "-" else ",".intercalate ids
 
 def hRtE2E : Handler := fun r =>
